@@ -218,7 +218,7 @@ func VerifC02_DerivedTranscript() {
 
 // C02 (history): two session opens on one connection, same user name and suite. The BMC
 // holds one password throughout; the first open is made with it and succeeds, the second
-// is made with an arbitrary password: a session may come back only if that password is the
+// is made with an arbitrary password of 20 or 24 bytes: a session may come back only if that password is the
 // BMC's, and a different one must give ErrIncorrectPassword - nothing learnt or cached in
 // the first handshake may stand in for the caller's password in the second.
 func VerifC02_TwoHandshakes() {
@@ -232,6 +232,13 @@ func VerifC02_TwoHandshakes() {
 		kg = vBytes(20)
 	}
 	second := vBytes(20)
+	if vBool() {
+		// a longer password whose first 20 bytes may be the BMC's: it is a different key
+		// unless the extra bytes are all zero (HMAC pads keys with zeros)
+		extra := vBytes(4)
+		vAssume(extra[0]|extra[1]|extra[2]|extra[3] != 0)
+		second = append(second, extra...)
+	}
 	suites := []ipmi.CipherSuite{{AuthenticationAlgorithm: ipmi.AuthenticationAlgorithm(auth),
 		IntegrityAlgorithm: ipmi.IntegrityAlgorithm(integ), ConfidentialityAlgorithm: ipmi.ConfidentialityAlgorithmAESCBC128}}
 	for round := 0; round < 2; round++ {
@@ -263,7 +270,7 @@ func VerifC02_TwoHandshakes() {
 			vAssert(err == nil && sess != nil, "c02-first-open-with-the-right-password-succeeds")
 			continue
 		}
-		if refBytesEq(second, bmcPassword) {
+		if len(second) == 20 && refBytesEq(second, bmcPassword) {
 			vReached("?same-password")
 		} else {
 			vAssert(err != nil && sess == nil, "c02-no-session-with-a-password-the-bmc-does-not-hold")
